@@ -188,7 +188,17 @@ func (w *World) Observe() J {
 	for _, p := range app.MasterchefKeeper.GetAllPoolRewardInfos(ctx) {
 		pr = append(pr, J{"pool": p.PoolId, "denom": p.RewardDenom, "acc": decRaw(p.PoolAccRewardPerShare), "last": p.LastUpdatedBlock})
 	}
-	st["masterchef"] = J{"users": ur, "pools": pr}
+	// the reward denoms each pool's deposit / withdraw / claim hooks walk (GetRewardDenoms), with the inputs it is computed from
+	rdl := []J{}
+	for _, pi := range app.MasterchefKeeper.GetAllPoolInfos(ctx) {
+		ext := pi.ExternalRewardDenoms
+		if ext == nil {
+			ext = []string{}
+		}
+		rdl = append(rdl, J{"pool": pi.PoolId, "base": app.MasterchefKeeper.GetBaseCurrencyDenom(ctx), "edenOn": pi.EnableEdenRewards, "ext": ext,
+			"keys": app.MasterchefKeeper.GetRewardDenoms(ctx, pi.PoolId)})
+	}
+	st["masterchef"] = J{"users": ur, "pools": pr, "denomLists": rdl}
 
 	// tradeshield
 	so := []J{}
